@@ -232,10 +232,98 @@ pub fn all_inputs(tier: &str) -> Vec<pipe::Input> {
     cases(tier).iter().map(|h| to_input(&[module_of(h)])).collect()
 }
 
+/// Hierarchies that span two modules in which different types share their short name (`g::Node` deep inside
+/// an imported base, `m::Node` as a direct base): each occurs once, so the derived type converts to both,
+/// at their own offsets, and re-exposes the functions of both.
+fn same_name_across_modules(rep: &mut Report) {
+    let mut xcases = vec![];
+    let mut inputs = vec![];
+    let mut expect = vec![];
+    for depth in [1usize, 2] {
+        for local_first in [false, true] {
+            let mut g = String::from("pub type Node {\n    pub x: u64,\n}\nimpl Node {\n    #[address(0x10000)]\n    pub fn id(&self);\n}\n");
+            let mut top = "Node";
+            if depth == 2 {
+                g.push_str("pub type Mid {\n    pub pad: u64,\n    #[base]\n    pub node: Node,\n}\n");
+                top = "Mid";
+            }
+            g.push_str(&format!("pub type Drawable {{\n    #[base]\n    pub inner: {top},\n    pub y: u64,\n}}\n"));
+            let (b0, b1) = if local_first { ("pub n: Node", "pub d: Drawable") } else { ("pub d: Drawable", "pub n: Node") };
+            let m = format!("use g::Drawable;\npub type Node {{\n    pub z: u64,\n}}\nimpl Node {{\n    #[address(0x20000)]\n    pub fn tag(&self);\n}}\npub type Sprite {{\n    #[base]\n    {b0},\n    #[base]\n    {b1},\n    pub w: u64,\n}}\n");
+            let input = pipe::Input { modules: vec![("g".into(), g), ("m".into(), m)] };
+            // offsets inside Sprite: Drawable = [pad] Node(8) y(8)
+            let dsize = if depth == 2 { 24u64 } else { 16 };
+            let d_off = if local_first { 8 } else { 0 };
+            let n_off = if local_first { 0 } else { dsize };
+            let gnode_off = d_off + if depth == 2 { 8 } else { 0 };
+            rep.states += 1;
+            rep.traces += 1;
+            rep.evaluations += 1;
+            rep.transitions += 4;
+            rep.distinct_str(&format!("same_name|{depth}|{local_first}"));
+            match pipe::run(&input, 8) {
+                pipe::Verdict::Ok(b) => {
+                    let mut files = b.files.clone();
+                    let mut d = String::from("\n#[allow(warnings)]\npub mod __verif_exec {\n    use super::*;\n    pub unsafe fn run() {\n        let mut o: Sprite = core::mem::zeroed();\n        let base = core::ptr::addr_of!(o) as u64;\n        crate::rt::map_stub_at(0x10000);\n        crate::rt::map_stub_at(0x20000);\n");
+                    for (label, ty) in [("g_node", "crate::g::Node"), ("m_node", "crate::m::Node"), ("drawable", "crate::g::Drawable")] {
+                        d.push_str(&format!("        crate::rt::begin(\"ref_{label}\");\n        let r: &{ty} = o.as_ref();\n        crate::rt::end(r as *const {ty} as u64 - base, &[]);\n"));
+                        d.push_str(&format!("        crate::rt::begin(\"mut_{label}\");\n        let r: &mut {ty} = o.as_mut();\n        crate::rt::end(r as *mut {ty} as u64 - base, &[]);\n"));
+                    }
+                    for f in ["id", "tag"] {
+                        d.push_str(&format!("        crate::rt::begin(\"{f}\");\n        o.{f}();\n        crate::rt::end(0, &[base]);\n"));
+                    }
+                    d.push_str("    }\n}\n");
+                    files.get_mut("m.rs").unwrap().push_str(&d);
+                    xcases.push(RCase::new(files));
+                    inputs.push(input);
+                    expect.push((gnode_off, n_off, d_off));
+                }
+                other => rep.violation(Violation { key: "valid_hierarchy_rejected".into(), features: vec!["same_name_across_modules".into()], input, ps: 8, detail: other.err_text(), locator: json!({"space": "same_name_across_modules", "ps": 8}) }),
+            }
+        }
+    }
+    match run_cases(&xcases, "m::__verif_exec::run", 20) {
+        Err(e) => rep.machinery(format!("{e:#}")),
+        Ok(results) => {
+            for (k, r) in results.iter().enumerate() {
+                let (gnode, mnode, drawable) = expect[k];
+                let viol = if !r.compile.is_empty() {
+                    Some((format!("conversion_or_member_missing:{}", r.compile[0].code), r.compile.iter().take(3).map(|d| d.rendered.clone()).collect::<Vec<_>>().join("\n")))
+                } else if let Some(cr) = &r.crashed {
+                    Some(("method_crashed".to_string(), cr.clone()))
+                } else {
+                    let mut v = None;
+                    for (label, want) in [("g_node", gnode), ("m_node", mnode), ("drawable", drawable)] {
+                        for kind in ["ref", "mut"] {
+                            match r.records.iter().find(|x| x.label == format!("{kind}_{label}")) {
+                                Some(rec) if rec.ret == want => {}
+                                Some(rec) => v = Some(("conversion_points_elsewhere".to_string(), format!("as_{kind} to {label}: offset {}, the sub-object is at {want}", rec.ret))),
+                                None => v = Some(("no_record".to_string(), format!("{kind}_{label}"))),
+                            }
+                        }
+                    }
+                    for (f, stub, off) in [("id", 0x10000u64, gnode), ("tag", 0x20000, mnode)] {
+                        match r.records.iter().find(|x| x.label == f) {
+                            Some(rec) if rec.events.len() == 1 && rec.events[0].stub == stub && rec.events[0].args[0] == rec.extra[0] + off => {}
+                            Some(rec) => v = Some(("base_member_not_reexposed_faithfully".to_string(), format!("{f}(): events {:?}, expected one call of {stub:#x} with receiver at offset {off}", rec.events.iter().map(|e| (e.stub, e.args[0].wrapping_sub(rec.extra[0]))).collect::<Vec<_>>()))),
+                            None => v = Some(("no_record".to_string(), f.to_string())),
+                        }
+                    }
+                    rep.count("methods_executed", r.records.len() as u64);
+                    v
+                };
+                if let Some((key, detail)) = viol {
+                    rep.violation(Violation { key, features: vec!["same_name_across_modules".into()], input: inputs[k].clone(), ps: 8, detail, locator: json!({"space": "same_name_across_modules", "ps": 8}) });
+                }
+            }
+        }
+    }
+}
+
 pub fn run(tier: &str, only: Option<&Value>) -> i32 {
     let mut rep = Report::new("C07", tier);
     let all = cases(tier);
-    rep.rule = "E1: every inheritance shape over up to 3 types (ordered base lists of up to 3 earlier types, vftable block or not) x five impl-function assignments per type drawn from the names {f, g} (public / private, &self / &mut self / no receiver, public or private virtual function) so that names clash between bases and between base and derived; all 4-type shapes containing a diamond (thorough: all 4-type shapes) x four assignments. Oracle: for every (base field b, public function of b's type incl. inherited ones, public virtual function of a non-first base) the derived type has a public method named like the original, or `<b>_<name>` when the name is wanted more than once, whose execution on the host reaches the original's address / vftable slot exactly once with the receiver at the base sub-object's offset; AsRef/AsMut to every base type occurring once return the sub-object's address, none is emitted for a type occurring more than once. distinct = distinct hierarchies".into();
+    rep.rule = "E1: every inheritance shape over up to 3 types (ordered base lists of up to 3 earlier types, vftable block or not) x five impl-function assignments per type drawn from the names {f, g} (public / private, &self / &mut self / no receiver, public or private virtual function) so that names clash between bases and between base and derived; all 4-type shapes containing a diamond (thorough: all 4-type shapes) x four assignments. Oracle: for every (base field b, public function of b's type incl. inherited ones, public virtual function of a non-first base) the derived type has a public method named like the original, or `<b>_<name>` when the name is wanted more than once, whose execution on the host reaches the original's address / vftable slot exactly once with the receiver at the base sub-object's offset; AsRef/AsMut to every base type occurring once return the sub-object's address, none is emitted for a type occurring more than once; the second base field of every type is a raw identifier (`r#type`); four two-module hierarchies in which two different base types share their short name (both conversions and both types' functions executed). distinct = distinct hierarchies".into();
     rep.assumptions = vec!["descriptions whose own impl function name is already taken by an inherited or virtual function are rejected by design (counted)".into(), "all functions take only a receiver: argument passing is C04/C05's subject".into()];
     let only_i = only.map(|l| l["index"].as_u64().unwrap_or(0) as usize);
     let idxs: Vec<usize> = match only_i {
@@ -291,11 +379,11 @@ pub fn run(tier: &str, only: Option<&Value>) -> i32 {
                     }
                 }
             }
+            _ if clash => rep.count("rejected_own_function_name_already_taken", 1),
             _ => {
-                rep.count(if clash { "rejected_own_function_name_already_taken" } else { "rejected_other_(not_flagged)" }, 1);
-                if !clash && std::env::var("VERIF_DEBUG").is_ok() {
-                    eprintln!("{}\n{}", input.render(), v.err_text());
-                }
+                // every hierarchy of the space is a valid description unless an own function takes a name that is
+                // already in use: a rejection means none of the base members is callable on the derived type
+                rep.violation(Violation { key: "valid_hierarchy_rejected".into(), features: vec![], input: input.clone(), ps, detail: v.err_text(), locator: loc });
             }
         }
         if j % 997 == 0 {
@@ -328,6 +416,9 @@ pub fn run(tier: &str, only: Option<&Value>) -> i32 {
                 }
             }
         }
+    }
+    if only.is_none() || matches!(only, Some(l) if l["space"] == "same_name_across_modules") {
+        same_name_across_modules(&mut rep);
     }
     if only.is_some() {
         for v in &rep.violations {
